@@ -136,6 +136,27 @@ def default_inputs(run, rng, focus):
     for i in range(120 if quick else 1500):
         L, R = gen.gen_dup_pair(rng)
         inputs.append((xml(L), xml(R), rng.choice([{}, {}, {'fast_match': True}, {'best_match': True}, {'F': 0.9}])))
+    # documents that differ ONLY in where a comment stands among its sibling elements (or in a comment's text / tail)
+    if focus in ("C03", "C01", "C05", "C17"):
+        for a, b in COMMENT_SHIFT:
+            inputs.append((a, b, {}))
+            inputs.append((b, a, {'fast_match': True}))
+        for _ in range(40 if quick else 400):
+            L = gen.gen_tree(rng, rng.randint(4, 8), ns=False, comments=True)
+            R = deepcopy(L)
+            cs_ = [c for c in R.iter() if c.tag is etree.Comment and len(c.getparent()) > 1]
+            if not cs_:
+                continue
+            c = rng.choice(cs_)
+            par = c.getparent()
+            i = par.index(c)
+            j = rng.choice([k for k in range(len(par)) if k != i])
+            tail = c.tail
+            c.tail = None
+            par.remove(c)       # (lxml drops the tail with the node: re-attach it so that only the position changes)
+            par.insert(j, c)
+            c.tail = tail
+            inputs.append((xml(L), xml(R), rng.choice([{}, {'fast_match': True}, {'best_match': True}])))
     # wide documents: one parent with many children, reversed / shuffled / rotated (long alignments)
     if focus in ("C01", "C04", "C05", "C17"):
         # small permutations of same-tag siblings with children of their own (paths through shifting indices)
@@ -244,11 +265,21 @@ ATTR_RENAME_STREAM = [
     ('<r><a i="1" j="5" k="5">t</a></r>', '<r><a i="1" m="5" n="5">t</a></r>'),
     ('<r xmlns:p="urn:p"><a p:i="1" j="5">t</a></r>', '<r xmlns:p="urn:p"><a p:i="2" p:k="5" i="5">t</a></r>'),
 ]
+COMMENT_SHIFT = [
+    ('<doc><!--c--><a/><b/></doc>', '<doc><a/><!--c--><b/></doc>'),
+    ('<doc><a/><b/><!--c--></doc>', '<doc><!--c--><a/><b/></doc>'),
+    ('<doc><s><a>x</a><!--note--><b>y</b><c/></s></doc>', '<doc><s><a>x</a><b>y</b><c/><!--note--></s></doc>'),
+    ('<doc><!--one--><a/><!--two--></doc>', '<doc><!--two--><a/><!--one--></doc>'),
+]
 REBOUND_STREAM = [
     ('<r xmlns:a="urn:1"><a:x>t</a:x><k/></r>', '<r xmlns:a="urn:2"><a:x>t</a:x><k/><a:y/></r>'),
     ('<r xmlns:a="urn:1"><a:x>t</a:x><k/></r>', '<r xmlns:a="urn:2"><k/><a:y>u</a:y></r>'),
     ('<r xmlns:a="urn:1"><a:x i="1"><a:z/></a:x></r>', '<r xmlns:a="urn:2"><a:x i="2"><a:z>t</a:z></a:x></r>'),
     ('<r xmlns:a="urn:1" xmlns:b="urn:2"><a:x>t</a:x><b:y/></r>', '<r xmlns:a="urn:2" xmlns:b="urn:1"><b:x>t2</b:x><a:y k="1"/></r>'),
+    # the RIGHT root introduces two prefixes for one URI that the left root does not bind; created nodes are addressed later
+    ('<r><k/></r>', '<r xmlns:p="u" xmlns:q="u"><k/><q:n a="1"><q:m>t</q:m></q:n></r>'),
+    ('<r><k/></r>', '<r xmlns:q="u" xmlns:p="u"><k/><p:n a="1"><p:m>t</p:m></p:n><q:z>w</q:z></r>'),
+    ('<r xmlns:o="urn:o"><o:k/></r>', '<r xmlns:o="urn:o" xmlns:a="u" xmlns:b="u"><o:k/><b:n><a:m>t</a:m></b:n></r>'),
 ]
 XMLID_STREAM = [
     ('<r><s xml:id="s1"><t>One</t><p>alpha</p></s><s xml:id="s2"><t>Two</t><p>beta</p></s></r>',
